@@ -160,10 +160,108 @@ example : languagesWithBadTags (fun c => c = "en".toList)
     = ["French".toList, "Bosnian (bos)".toList] := by decide
 example : ianaDue (fun c => c = "en".toList) "fr".toList = true := by decide
 
+
+/-! ## Row-level warnings -/
+
+/-- **Row-level warnings, all kinds at once.**  After a successful row loop a warning is in the list iff it was
+    there before or it is due for some row (numbered from `n`). -/
+theorem row_warning_iff (rows : List PRow) (n : Nat) (st st' : St) (h : rowLoop n rows st = .ok st') (w : W) :
+    w ∈ st'.warnings ↔ w ∈ st.warnings ∨ ∃ i r, rows[i]? = some r ∧ w ∈ rowDue (n + i) r := by
+  rw [(rowLoop_ok rows n st st' h).1, List.mem_append, mem_rowsDue]
+
+theorem or_other_flag (rows : List PRow) (n : Nat) (st st' : St) (h : rowLoop n rows st = .ok st') :
+    st'.orOther = (st.orOther || rows.any orOtherRow) := (rowLoop_ok rows n st st' h).2
+
+/-! per kind: when is a warning of that kind due for row `n` -/
+
+theorem disabled_iff (n m : Nat) (r : PRow) : W.disabled m ∈ rowDue n r ↔ m = n ∧ disabledTrig r = true := by
+  simp only [rowDue, disabledTrig, List.mem_append]
+  constructor
+  · rintro (((((h | h) | h) | h) | h) | h) <;> (try (split at h)) <;> (try (split at h)) <;> (try (split at h)) <;> simp_all
+  · rintro ⟨rfl, h⟩; simp [h]
+
+theorem skipped_iff (n m : Nat) (r : PRow) : W.skipped m ∈ rowDue n r ↔ m = n ∧ skippedTrig r = true := by
+  simp only [rowDue, List.mem_append]
+  constructor
+  · rintro (((((h | h) | h) | h) | h) | h) <;> (try (split at h)) <;> (try (split at h)) <;> (try (split at h)) <;> simp_all
+  · rintro ⟨rfl, h⟩; simp [h]
+
+theorem deprecated_iff (n m : Nat) (r : PRow) (t : Str) :
+    W.deprecated m t ∈ rowDue n r ↔ m = n ∧ deprecatedTrig r t = true := by
+  simp only [rowDue, List.mem_append]
+  constructor
+  · rintro (((((h | h) | h) | h) | h) | h) <;> (try (split at h)) <;> (try (split at h)) <;> (try (split at h)) <;> simp_all
+  · rintro ⟨rfl, h⟩
+    have hty : rowType r = some t := by
+      simp only [deprecatedTrig, Bool.and_eq_true, decide_eq_true_eq] at h
+      exact h.1.1.2
+    simp [hty, h]
+
+theorem no_label_iff (n m : Nat) (r : PRow) (ct : Str) :
+    W.noLabel m ct ∈ rowDue n r ↔ m = n ∧ noLabelTrig r ct = true := by
+  simp only [rowDue, List.mem_append]
+  constructor
+  · rintro (((((h | h) | h) | h) | h) | h) <;> (try (split at h)) <;> (try (split at h)) <;> (try (split at h)) <;> simp_all
+  · rintro ⟨rfl, h⟩
+    have h' := h
+    simp only [noLabelTrig, Bool.and_eq_true] at h'
+    cases hty : rowType r with
+    | none => simp [hty] at h'
+    | some t =>
+      simp only [hty, Bool.and_eq_true, decide_eq_true_eq] at h'
+      simp [hty, h'.1.2.2, h]
+
+theorem ext_no_filter_iff (n m : Nat) (r : PRow) :
+    W.extNoFilter m ∈ rowDue n r ↔ m = n ∧ extNoFilterTrig r = true := by
+  simp only [rowDue, List.mem_append]
+  constructor
+  · rintro (((((h | h) | h) | h) | h) | h) <;> (try (split at h)) <;> (try (split at h)) <;> (try (split at h)) <;> simp_all
+  · rintro ⟨rfl, h⟩; simp [h]
+
+theorem no_max_pixels_iff (n m : Nat) (r : PRow) :
+    W.noMaxPixels m ∈ rowDue n r ↔ m = n ∧ noMaxPixelsTrig r = true := by
+  simp only [rowDue, List.mem_append]
+  constructor
+  · rintro (((((h | h) | h) | h) | h) | h) <;> (try (split at h)) <;> (try (split at h)) <;> (try (split at h)) <;> simp_all
+  · rintro ⟨rfl, h⟩; simp [h]
+
+
+example : (rowOut 3 [(["type".toList], "image".toList), (["name".toList], "p".toList)]).toOption.map (·.ws)
+    = some [W.noMaxPixels 3] := by decide +kernel
+example : (rowOut 4 [(["type".toList], "begin group".toList), (["name".toList], "g".toList),
+      (["disabled".toList], "no".toList)]).toOption.map (·.ws)
+    = some [W.disabled 4, W.noLabel 4 "group".toList] := by decide +kernel
+example : noMaxPixelsTrig [(["type".toList], "image".toList), (["name".toList], "p".toList)] = true := by decide +kernel
+
+/-! ## Advisory only -/
+
+/-- **warnings_advisory.**  The conversion result does not depend on the warnings list passed in, and that list is
+    only appended to. -/
+theorem warnings_advisory (lower : Str → Str) (wb : WB) (v : View) (w0 : List W) :
+    convertOn lower wb v w0 = (convertOn lower wb v []).map (fun p => (p.1, w0 ++ p.2)) := by
+  rw [convertOn_eq, convertOn_eq lower wb v []]
+  cases choicesWarnings (groupChoices (numberFrom 2 v.chRows)) with
+  | error e => rfl
+  | ok chW =>
+    simp only [List.nil_append]
+    have h := rowLoop_frame w0 v.svRows 2 { warnings := preRows lower wb v chW }
+    simp only at h
+    rw [h]
+    cases rowLoop 2 v.svRows { warnings := preRows lower wb v chW } with
+    | error e => rfl
+    | ok st => simp [Except.map, List.append_assoc]
+
+example : (convertOn lowerAscii
+    { sheetNames := ["survey".toList, "setting".toList], surveyHeader := [], survey := [], choicesHeader := [], choices := [],
+      settingsHeader := [], settingsRows := 0, hasEntities := false }
+    { chHeaders := [], chRows := [], svHeaders := [["type".toList], ["name".toList]],
+      svRows := [[(["type".toList], "simserial".toList), (["name".toList], "s".toList)]] } [W.orOther]).toOption.map (·.2)
+    = some [W.orOther, W.misspell "settings".toList ["setting".toList], W.deprecated 2 "simserial".toList] := by decide +kernel
+
 /-! ## the tables the triggers are read from (pinned: the documented sets) -/
 
 /-- the deprecated metadata types of the documentation -/
-theorem deprecated_pinned : deprecatedTypes = documentedDeprecated := by decide
+theorem deprecated_pinned : deprecatedTypes = documentedDeprecated := deprecated_pinned'
 /-- the translatable columns of the two sheets -/
 theorem translatable_pinned :
     surveyTrTable.map (·.1) = ["label", "hint", "guidance_hint", "image", "big-image", "audio", "video",
